@@ -41,6 +41,7 @@ namespace ip {
 		, m_recv_sender(nullptr)
 		, m_recv_timer(ios)
 		, m_send_timer(ios)
+		, m_alive(std::make_shared<bool>(true))
 		, m_recv_null_buffers(0)
 		, m_queue_size(0)
 		, m_is_v4(true)
@@ -57,6 +58,7 @@ namespace ip {
 		, m_recv_sender(std::move(s.m_recv_sender))
 		, m_recv_timer(std::move(s.m_recv_timer))
 		, m_send_timer(std::move(s.m_send_timer))
+		, m_alive(std::make_shared<bool>(true))
 		, m_incoming_queue(std::move(s.m_incoming_queue))
 		, m_recv_null_buffers(std::move(s.m_recv_null_buffers))
 		, m_queue_size(std::move(s.m_queue_size))
@@ -248,11 +250,14 @@ namespace ip {
 				m_send_timer.expires_at(m_next_send + m_send_queue_time / 2);
 
 				m_wait_send_handler = std::move(handler);
-				m_send_timer.async_wait([this](boost::system::error_code const& e)
+				// the timer's completion is posted when it fires. The socket may be
+				// destroyed before that posted completion runs
+				std::weak_ptr<bool> alive = m_alive;
+				m_send_timer.async_wait([this, alive](boost::system::error_code const& e)
 				{
 					// when the wait was aborted, abort_send_handlers() has
 					// already completed the handler
-					if (e || !m_wait_send_handler) return;
+					if (e || alive.expired() || !m_wait_send_handler) return;
 					auto h = std::move(m_wait_send_handler);
 					m_wait_send_handler = nullptr;
 					h(boost::system::error_code());
